@@ -2,7 +2,7 @@
     multi_channel_weight_info.hpp, multi_channel_summary.hpp, multi_channel_max_difference.hpp
     (index skeleton only: which entries are read and printed).  No proofs in this file. *)
 From Coq Require Import ZArith NArith List Bool Sorting.Mergesort Orders.
-From HepMC Require Import Num Result Helper.
+From HepMC Require Import Num Translated Result Helper.
 Import ListNotations.
 
 Inductive cbmode := Silent | SilentWrite | Verbose | VerboseWrite.
@@ -13,10 +13,11 @@ Section Callback.
   Context {K : Num}.
 
   (** perform_more_iterations of the built-in callback, from the main results so far *)
+  (* both expressions come from the translator (callback.hpp: rel_err_all, perform_more_iterations) *)
   Definition rel_err_all (rs : list (mcres K)) : K :=
-    let r := weighted_with_variance rs in div K (error r) (fabs K (value r)).
+    let r := weighted_with_variance rs in rel_err_all_of K (error r) (value r).
   Definition decide (target : K) (rs : list (mcres K)) : bool :=
-    negb (ltb K (zero K) target && leb K (rel_err_all rs) target).
+    perform_more_iterations K target (rel_err_all rs).
 
   (** multi_channel_weight_info: channels stably sorted by weight, their weights and expected
       calls, number of channels sharing the minimal expected calls *)
